@@ -4,3 +4,7 @@ mod sort;
 
 pub use chunk::{ExternalChunk, ExternalChunkError};
 pub use sort::{ExternalSorterBuilder, ExternalSorter, SortError};
+#[cfg(feature = "verif-hooks")]
+pub use merger::BinaryHeapMerger;
+#[cfg(feature = "verif-hooks")]
+pub use chunk::verif_dump;
